@@ -39,6 +39,16 @@
 /*============================================================================*/
 
 void eb_pck(eb_t r, const eb_t p) {
+	if (fb_is_zero(p->x)) {
+		/* The point of order two (0, sqrt(b)): y1/x1 is not defined and the
+		 * compressed bit is 0 by convention (SEC 1, section 2.3.3). */
+		fb_zero(r->x);
+		fb_zero(r->y);
+		fb_set_dig(r->z, 1);
+		r->coord = BASIC;
+		return;
+	}
+
 	/* z3 = y1/x1. */
 	fb_inv(r->z, p->x);
 	fb_mul(r->z, r->z, p->y);
@@ -63,27 +73,39 @@ int eb_upk(eb_t r, const eb_t p) {
 		fb_new(t0);
 		fb_new(t1);
 
-		eb_rhs(t1, p->x);
-
-		fb_sqr(t0, p->x);
-		/* t0 = 1/x1^2. */
-		fb_inv(t0, t0);
-		/* t0 = t1/x1^2. */
-		fb_mul(t0, t0, t1);
-		result = (fb_trc(t0) == 0);
-		if (result) {
-			/* Solve t1^2 + t1 = t0. */
-			fb_slv(t1, t0);
-			/* If this is not the correct solution, try the other. */
-			if (fb_get_bit(t1, 0) != fb_get_bit(p->y, 0)) {
-				fb_add_dig(t1, t1, 1);
+		if (fb_is_zero(p->x)) {
+			/* The only point with x = 0 is (0, sqrt(b)), which is its own
+			 * negative: only the encoding with a zero bit is canonical. */
+			result = (fb_get_bit(p->y, 0) == 0);
+			if (result) {
+				fb_srt(r->y, eb_curve_get_b());
+				fb_zero(r->x);
+				fb_set_dig(r->z, 1);
+				r->coord = BASIC;
 			}
-			/* x3 = x1, y3 = t1 * x1, z3 = 1. */
-			fb_mul(r->y, t1, p->x);
+		} else {
+			eb_rhs(t1, p->x);
 
-			fb_copy(r->x, p->x);
-			fb_set_dig(r->z, 1);
-			r->coord = BASIC;
+			fb_sqr(t0, p->x);
+			/* t0 = 1/x1^2. */
+			fb_inv(t0, t0);
+			/* t0 = t1/x1^2. */
+			fb_mul(t0, t0, t1);
+			result = (fb_trc(t0) == 0);
+			if (result) {
+				/* Solve t1^2 + t1 = t0. */
+				fb_slv(t1, t0);
+				/* If this is not the correct solution, try the other. */
+				if (fb_get_bit(t1, 0) != fb_get_bit(p->y, 0)) {
+					fb_add_dig(t1, t1, 1);
+				}
+				/* x3 = x1, y3 = t1 * x1, z3 = 1. */
+				fb_mul(r->y, t1, p->x);
+
+				fb_copy(r->x, p->x);
+				fb_set_dig(r->z, 1);
+				r->coord = BASIC;
+			}
 		}
 	}
 	RLC_CATCH_ANY {
